@@ -1,6 +1,8 @@
 import OjgVerif.Props.C05
 import OjgVerif.JPath.LemmasRfc
+import OjgVerif.JPath.LemmasMach
 import OjgVerif.Gen.JpathFacts
+import OjgVerif.JPath.Arms
 /-! # C11 — every JSONPath evaluator and data representation agrees with Get
 
 **What the models are, up front.**
@@ -113,6 +115,67 @@ theorem C11_has_full_false_before_baff053 : ¬ C11_has_full Cfg.original := by
   have h3 : (getM Cfg.original Rep.simple w4path w4data).isEmpty = true := by decide
   rw [h2, h3] at h1
   simp at h1
+
+/-! ## FirstFound and Has as programs of their own
+
+`firstMach`/`hasMach` (JPath/Machines.lean) are the work-list loops of `Expr.FirstFound` (jp/get.go) and
+`Expr.Has` (jp/has.go) transcribed from their own text — stack frames, markers, flags, early `return` — not the
+skeleton `evalSel`. The theorems below are about these two programs and the Get machine `getM`; nothing in them
+is definitional: the proof is a round-by-round simulation (`first_step_sim`, `has_step_sim`). -/
+
+/-- **FirstFound (the machine) returns the first of Get's results** — every configuration of the deviation
+flags, every tree, every path that does not end in a bare descent (the property's quantifier; with a trailing
+descent the two loops differ by construction: `C11_first_machine_trailing_descent`) -/
+theorem C11_first_machine (cfg : Cfg) (x : List Frag) (d : JV) (ht : endsInDescent x = false) :
+    firstMach cfg Rep.simple x d = (getM cfg Rep.simple x d).head? := by
+  cases x with
+  | nil => simp [firstMach, getM]
+  | cons f r =>
+    simp only [firstMach, getM, first_pushV_simple]
+    exact first_run_sim _ (Get.lastV cfg Rep.simple) (Get.pushV cfg Rep.simple) (f :: r) _
+      (first_ret_simple cfg) (drop_ne_descent _ ht) _ _
+
+/-- **Has (the machine) is true exactly when Get is non-empty** — every configuration in which has.go's
+descent has a case for every element (`hasTypedDescent` off: so since 21977aa), every tree, every path that
+does not end in a bare descent. No condition on `descentSiblings`: the machines share the marker discipline. -/
+theorem C11_has_machine (cfg : Cfg) (hd : cfg.hasTypedDescent = false) (x : List Frag) (d : JV)
+    (ht : endsInDescent x = false) :
+    hasMach cfg Rep.simple x d = !(getM cfg Rep.simple x d).isEmpty := by
+  cases x with
+  | nil => simp [hasMach, getM]
+  | cons f r =>
+    simp only [hasMach, getM, has_pushV_simple]
+    exact has_run_sim _ (Get.lastV cfg Rep.simple) (Get.pushV cfg Rep.simple) (f :: r) _
+      (has_sets_simple cfg hd) _ (has_ret_simple cfg) (drop_ne_descent _ ht) _ _
+
+/-- non-trivial instance of the hypothesis: `$..a[1:3][?]..b` does not end in a bare descent -/
+example : endsInDescent [.descent, .child [97], .slice (some 1) (some 3) none, .filter (fun _ => true),
+    .descent, .child [98]] = false := by decide
+
+/-- **for the code as it is now**: the FirstFound machine returns the head of the Get machine's results, the
+Has machine says whether there are any, and both are what the skeleton models `firstM`/`hasM` compute -/
+theorem C11_first_has_machine_current (x : List Frag) (d : JV) (ht : endsInDescent x = false) :
+    firstMach Cfg.pinned Rep.simple x d = (getM Cfg.pinned Rep.simple x d).head? ∧
+    hasMach Cfg.pinned Rep.simple x d = !(getM Cfg.pinned Rep.simple x d).isEmpty ∧
+    firstMach Cfg.pinned Rep.simple x d = firstM Cfg.pinned Rep.simple x d ∧
+    hasMach Cfg.pinned Rep.simple x d = hasM Cfg.pinned Rep.simple x d :=
+  ⟨C11_first_machine Cfg.pinned x d ht, C11_has_machine Cfg.pinned rfl x d ht,
+   (C11_first_machine Cfg.pinned x d ht).trans (C11_first_current x d).symm,
+   (C11_has_machine Cfg.pinned rfl x d ht).trans (C11_has_current x d).symm⟩
+
+/-- every flag off -/
+theorem C11_first_has_machine_fixed (x : List Frag) (d : JV) (ht : endsInDescent x = false) :
+    firstMach Cfg.fixed Rep.simple x d = (getM Cfg.fixed Rep.simple x d).head? ∧
+    hasMach Cfg.fixed Rep.simple x d = !(getM Cfg.fixed Rep.simple x d).isEmpty :=
+  ⟨C11_first_machine Cfg.fixed x d ht, C11_has_machine Cfg.fixed rfl x d ht⟩
+
+/-- where the loops differ, outside the property: `$..` on `[]` — Get reports the node itself in the second
+pass of a last descent, FirstFound and Has drop it (get.go:1424, has.go:447: the `else` branch only puts the
+element back for the next fragment) -/
+theorem C11_first_machine_trailing_descent :
+    (firstMach Cfg.pinned Rep.simple [.descent] (.arr [])).isSome = false ∧
+    hasMach Cfg.pinned Rep.simple [.descent] (.arr []) = false ∧
+    (getM Cfg.pinned Rep.simple [.descent] (.arr [])).length = 1 := by decide
 
 /-! ## Locate and Expr.Walk
 
@@ -288,6 +351,48 @@ theorem C11_walk_descent_self_before_5d79291 :
     (getS Cfg.original Rep.simple w6path w6data).length = 1 ∧
     (walkM Cfg.pinned Rep.simple w6path w6data).length = 1 := by decide
 
+/-! ## Locate and Walk as the recursive programs they are
+
+`locateRec`/`walkRecM` (JPath/Machines.lean) transcribe the per-fragment `locate` and `Walk` methods: recursion
+on the rest of the path, the descent walking the tree, Locate's budget `max` threaded through
+`locateContinueFrag`. They are proved equal to the skeleton models `locateM`/`walkM`, so every statement above
+about `locateM`/`walkM` is a statement about these programs. -/
+
+/-- **the recursive Walk methods are the skeleton model**: every configuration, representation tag, path, tree -/
+theorem C11_walk_recursive (cfg : Cfg) (rep : Rep) (x : List Frag) (d : JV) :
+    walkRecM cfg rep x d = walkM cfg rep x d :=
+  walkRec_eq_evalSel cfg rep x d
+
+/-- **the recursive locate methods without a budget (`max ≤ 0`) are the skeleton model**: every configuration
+and representation tag in which the descent sees the members of every object (`typedMapWild` off or not a
+typed map), every path that does not end in a bare descent, every tree -/
+theorem C11_locate_recursive (cfg : Cfg) (rep : Rep)
+    (hcut : (cfg.typedMapWild && decide (rep.ok = OKind.rmap)) = false) (max : Int) (hm : max ≤ 0)
+    (x : List Frag) (d : JV) (ht : endsInDescent x = false) :
+    locateRec cfg rep x max d = locateM cfg rep x d := by
+  cases x with
+  | nil => rfl
+  | cons f r => exact locRec_eq_evalSel cfg rep hcut max hm (f :: r) d (by simp) ht
+
+/-- **Locate and Walk, the recursive programs, for the code as it is now**, under the restriction of
+`C11_locate_walk_current` (no slice with a positive start, no trailing bare descent): they report exactly the
+locations of Get's results (as multisets) -/
+theorem C11_locate_walk_recursive_current (x : List Frag) (d : JV) (hlow : x.all lowStart = true)
+    (ht : endsInDescent x = false) (hz : (jsize d : Int) ≤ maxEnd) :
+    (locateRec Cfg.pinned Rep.simple x 0 d).Perm (getS Cfg.pinned Rep.simple x d) ∧
+    (walkRecM Cfg.pinned Rep.simple x d).Perm (getS Cfg.pinned Rep.simple x d) := by
+  rw [C11_locate_recursive Cfg.pinned Rep.simple rfl 0 (by omega) x d ht, C11_walk_recursive]
+  exact ⟨(C11_locate_walk_current x d hlow ht hz).1, (C11_locate_walk_current x d hlow ht hz).2.2⟩
+
+/-- the budget, on `[1,2,3,4]`: `$[*]` with `max = 1` returns one path; `$[0:3]` with `max = 1` returns three —
+a slice in the last position has no budget test (slice.go:439-441; the doc comment of `Locate` says "limited to
+the max specified"; the property does not speak of `max`) -/
+theorem C11_locate_budget_witness :
+    (locateRec Cfg.pinned Rep.simple [.wild] 1 (.arr [.int 1, .int 2, .int 3, .int 4])).length = 1 ∧
+    (locateRec Cfg.pinned Rep.simple [.slice (some 0) (some 3) none] 1 (.arr [.int 1, .int 2, .int 3, .int 4])).length = 3 ∧
+    (locateRec Cfg.pinned Rep.simple [.descent] 2 (.arr [.arr [.int 1, .int 2], .arr [.int 3]])).length = 2 := by
+  decide
+
 /-! ## GetNodes, FirstNode (gen data) and Get on other representations -/
 
 theorem gen_not_cut (cfg : Cfg) : (cfg.typedMapWild && decide (Rep.gen.ok = OKind.rmap)) = false := by
@@ -461,5 +566,50 @@ theorem pinned_is_source :
     Cfg.pinned.walkFilterRootSelf = Gen.JpathFacts.walkFilterRootSelf ∧
     -- not a flag: Get, FirstFound, Has, GetNodes and FirstNode hand their own argument to a filter as its root
     Gen.JpathFacts.filterRootIsArgument = true := by decide
+
+/-! ## The arms of the model are arms of the source
+
+`Gen.JpathArms` (tools/extract/jpath_arms.go) lists every switch of the evaluators of jp/ with its arms in source
+order; `JPath/Arms.lean` says which arm each (fragment kind × container kind) of the model needs. Like
+`pinned_is_source` these are **tripwires on the shape of the source** (`decide` over the generated table), not
+proofs about what the arms do: dropping a container type from a `prev`/`data` switch, a kind from the list of
+kinds that are handed on to the next fragment, a reflect kind from a helper, or a fragment case breaks them. -/
+
+open OjgVerif.JPath.Arms in
+/-- the fragment switch of each of the five stack machines has a case for every fragment kind of the model -/
+theorem arms_fragment_cases :
+    (machines ++ genMachines).all fragCases = true := by decide +kernel
+
+open OjgVerif.JPath.Arms in
+/-- **Get, FirstFound, Has: every (fragment kind × array kind × object kind) arm of the model is in the source**
+(`[]any`, `gen.Array`, `Indexed`, `map[string]any`, `gen.Object`, `Keyed` by name, typed data by the `default:`
+arm) -/
+theorem arms_machines (a : AK) (o : OKind) : machineArms a o = true := by
+  cases a <;> cases o <;> decide +kernel
+
+open OjgVerif.JPath.Arms in
+/-- Get, FirstFound, Has hand on every container kind: every `switch v.(type)` in a fragment case lists
+`gen.Object, gen.Array`, those with a `default:` arm list `map[string]any, []any, gen.Object, gen.Array, Keyed,
+Indexed`, and every reflect fallback lists `reflect.Ptr, reflect.Slice, reflect.Struct, reflect.Array,
+reflect.Map` (a dropped kind — seeded C11-m3: no Child into a fixed-size array — breaks this) -/
+theorem arms_push_kinds : machines.all pushKinds = true := by decide +kernel
+
+open OjgVerif.JPath.Arms in
+/-- GetNodes, FirstNode: every fragment case, `gen.Object`/`gen.Array` under wildcard and descent and in every
+hand-on test -/
+theorem arms_gen_machines : genMachines.all genArms = true := by decide +kernel
+
+open OjgVerif.JPath.Arms in
+/-- **the locate and Walk methods: every (fragment kind × container kind) arm of the model is in the source**,
+and `locateNthChildHas`/`locateContinueFrag` continue into every container kind -/
+theorem arms_recursive (a : AK) (o : OKind) : recursiveArms a o = true ∧ locateContinueKinds = true := by
+  cases a <;> cases o <;> decide +kernel
+
+open OjgVerif.JPath.Arms in
+/-- **typed representations: the reflect kind is an arm of every helper it is reached through**
+(reflectGetChild/Nth/Wild/WildOne/Slice, evalWithRoot, the reflect branches of the locate methods, wildWalk,
+Filter.Walk) -/
+theorem arms_reflect (a : AK) (o : OKind) : reflectArms a o = true := by
+  cases a <;> cases o <;> decide +kernel
 
 end OjgVerif.C11
